@@ -3,6 +3,7 @@ import NomtModel.Store.ConstantsAlloc
 import NomtModel.Store.ProbeInv
 import NomtModel.Store.FreeListBounded
 import NomtModel.Store.FreeListWF
+import NomtModel.Store.FreeListNthPop
 /-!
 # C19 — page accounting (the part checked on the on-disk image)
 
@@ -284,5 +285,28 @@ example : ∃ s live, Reachable 2 s live ∧ s.portions = [(5, [2, 1])] ∧ s.bu
       some { state := { portions := [(5, [2, 1])], released := [], pop := false, bump := 6 }, written := [5],
              exhausted := true })
   exact ⟨_, _, r2, rfl, rfl, by decide⟩
+
+/-- T19.7 **`CleanFreeList::len` / `get_nth_pop` are what `allocate` assumes.**  `lenAndFragmented` and
+`getNthPop` mirror `len_and_fragmented` and `get_nth_pop` with their index arithmetic over the Rust-order
+representation `toRust s.portions` (head portion last, top of each item vector last).  On a well-shaped list the
+length field is the number of free pages, and for every allocation index below it `get_nth_pop` returns the page
+the model's `allocate` returns — the `i`-th element of the pop sequence, i.e. exactly the page the `i`-th `pop` /
+`discard` removes (`discardP_spec`). -/
+theorem T19_7_get_nth_pop (cap : Nat) (hc : 2 ≤ cap) (s : State) (hw : WellShaped cap s.portions) :
+    (lenAndFragmented cap (toRust s.portions)).1 = (itemsOf s.portions).length ∧
+    ∀ i, i < (itemsOf s.portions).length →
+      getNthPop cap (toRust s.portions) (lenAndFragmented cap (toRust s.portions)).2 i = allocate s i := by
+  obtain ⟨h1, h2⟩ := getNthPop_spec hc s.portions hw
+  refine ⟨h1, fun i hi => ?_⟩
+  rw [h2 i hi]
+  simp [allocate, hi]
+
+/-- non-vacuity of T19.7 (capacity 4, the shape of the unit test `clean_nth_pop_fragmented`): head {7}, a
+fragmented second portion of three items, two full portions -/
+example : (List.range 12).map (getNthPop 4 (toRust
+      [(6, [7]), (5, [3, 2, 100]), (4, [14, 13, 12, 11]), (1, [24, 23, 22, 21])]) true)
+    = [7, 3, 2, 100, 14, 13, 12, 11, 24, 23, 22, 21] ∧
+    lenAndFragmented 4 (toRust [(6, [7]), (5, [3, 2, 100]), (4, [14, 13, 12, 11]), (1, [24, 23, 22, 21])]) = (12, true) := by
+  decide
 
 end Nomt.C19
